@@ -210,12 +210,11 @@ Section Hoist.
   Lemma hoisted_strict cond o l l' ns N :
     is_lazy o = false -> hoisted_list cond l l' ns N -> hoisted cond (ENary o l) (ENary o l') ns N.
   Proof.
-    intros Ho H s L v Hc He. rewrite (evalt_strict F s o l Ho) in He.
-    destruct (evalt_list F s l) as [Ll [vs|u]] eqn:El; [|discriminate].
-    destruct (node_t F o vs) as [Lk vk] eqn:Ek. inversion He; subst L vk. clear He.
+    intros Ho H s L v Hc He.
+    destruct (evalt_strict_ok F s o l L v Ho He) as (Ll & vs & Lk & El & Ek & ->).
     destruct (H s Ll vs Hc El) as (L1 & s' & L2 & X1 & X2 & X3 & X4).
     exists L1, s', (L2 ++ Lk). split; [exact X1|split; [exact X2|split]].
-    - rewrite (evalt_strict F s' o l' Ho), X3, Ek. reflexivity.
+    - exact (evalt_strict_list F s' o l' L2 vs Lk v Ho X3 Ek).
     - rewrite app_assoc. now apply Permutation_app_tail.
   Qed.
 
